@@ -417,3 +417,25 @@ func AwaitRequestID(x *memnet.Exchange, method string) string {
 	vsched.Block("await server request "+method, reqProbe{x, method})
 	return findRequestID(x, method)
 }
+
+// ---- routing of the library's default http.Client (it has no option to replace it) ----
+
+var currentFabric *memnet.Fabric
+
+// InstallFabric makes f the target of http.DefaultTransport for the current execution.
+//
+//go:norace
+func InstallFabric(f *memnet.Fabric) { currentFabric = f }
+
+type router struct{}
+
+//go:norace
+func (router) RoundTrip(req *http.Request) (*http.Response, error) {
+	f := currentFabric
+	if f == nil {
+		return nil, fmt.Errorf("hx: no fabric installed (request to %s)", req.URL)
+	}
+	return f.RoundTrip(req)
+}
+
+func init() { http.DefaultTransport = router{} }
